@@ -25,7 +25,7 @@ MALLOC_DEBUG = True
 
 
 def cases(tier, seed):
-    for i in range(700 if tier == "quick" else 20000):
+    for i in range(1400 if tier == "quick" else 30000):
         yield {"fam": "rand", "i": i}
 
 
